@@ -151,7 +151,10 @@ class G:
 
 # ---------------------------------------------------------------- keys
 KEYFORMATS = [None, "identity", "com.apple.streamingkeydelivery", "com.microsoft.playready",
-              "urn:uuid:edef8ba9-79d6-4ace-a3c8-27dcd51d21ed", "com.example.drm"]
+              "urn:uuid:edef8ba9-79d6-4ace-a3c8-27dcd51d21ed", "com.example.drm",
+              # near misses of the well-known identifiers: other spellings are OTHER formats (quoted strings compare byte-wise)
+              "IDENTITY", "Identity", "urn:uuid:EDEF8BA9-79D6-4ACE-A3C8-27DCD51D21ED", "com.apple.StreamingKeyDelivery",
+              "com.microsoft.PlayReady", "identity ", "urn:uuid:edef8ba9-79d6-4ace-a3c8-27dcd51d21e"]
 KF_ATOM = {"identity": "identity", "com.apple.streamingkeydelivery": "fairplay",
            "urn:uuid:edef8ba9-79d6-4ace-a3c8-27dcd51d21ed": "widevine",
            "com.microsoft.playready": "playready"}
@@ -178,7 +181,7 @@ def fmt_norm(k):
 def key_line(k, g=None):
     if k is None:
         # the tag is recognised from its attribute list: white space and unknown attributes are presentation only
-        return "#EXT-X-KEY:" + render_attrs([("METHOD", "NONE")], g)
+        return "#EXT-X-KEY:" + attrs_of("key", [("METHOD", "NONE")], g)
     attrs = [("METHOD", k["method"]), ("URI", '"%s"' % k["uri"])]
     if k["iv"] is not None:
         attrs.append(("IV", "0x" + k["iv"].hex()))
@@ -186,7 +189,7 @@ def key_line(k, g=None):
         attrs.append(("KEYFORMAT", '"%s"' % k["format"]))
     if k["versions"] is not None:
         attrs.append(("KEYFORMATVERSIONS", '"%s"' % "/".join(str(v) for v in k["versions"])))
-    return "#EXT-X-KEY:" + render_attrs(attrs, g)
+    return "#EXT-X-KEY:" + attrs_of("key", attrs, g)
 
 
 def spec_key(k, number=None):
@@ -217,6 +220,30 @@ def keys_in_effect(history):
 
 
 # ---------------------------------------------------------------- surface style
+ATTR_NAMES = {
+    "key": ["METHOD", "URI", "IV", "KEYFORMAT", "KEYFORMATVERSIONS"],
+    "map": ["URI", "BYTERANGE"],
+    "daterange": ["ID", "CLASS", "START-DATE", "END-DATE", "DURATION", "PLANNED-DURATION", "SCTE35-CMD", "SCTE35-OUT", "SCTE35-IN", "END-ON-NEXT"],
+    "start": ["TIME-OFFSET", "PRECISE"],
+    "media": ["TYPE", "URI", "GROUP-ID", "LANGUAGE", "ASSOC-LANGUAGE", "NAME", "DEFAULT", "AUTOSELECT", "FORCED", "INSTREAM-ID", "CHARACTERISTICS", "CHANNELS"],
+    "streaminf": ["BANDWIDTH", "AVERAGE-BANDWIDTH", "CODECS", "RESOLUTION", "HDCP-LEVEL", "VIDEO", "FRAME-RATE", "AUDIO", "SUBTITLES", "CLOSED-CAPTIONS"],
+    "iframe": ["BANDWIDTH", "AVERAGE-BANDWIDTH", "CODECS", "RESOLUTION", "HDCP-LEVEL", "VIDEO", "URI"],
+    "sdata": ["DATA-ID", "VALUE", "URI", "LANGUAGE"],
+}
+FOREIGN_ATTR_NAMES = sorted(set(n for v in ATTR_NAMES.values() for n in v))
+
+
+def attrs_of(tagkind, attrs, g):
+    """render_attrs for a tag of the given kind: attribute names of OTHER tags may be added as unknown attributes"""
+    if g is None:
+        return render_attrs(attrs, None)
+    g.style["own_names"] = ATTR_NAMES[tagkind]
+    try:
+        return render_attrs(attrs, g)
+    finally:
+        g.style["own_names"] = None
+
+
 def render_attrs(attrs, g):
     """attrs: list of (name, already-formatted value).  With a generator: permute, pad,
     add unknown attributes."""
@@ -225,10 +252,16 @@ def render_attrs(attrs, g):
         g.r.shuffle(attrs)
     if g is not None and g.style.get("unknown_attrs") and g.chance(0.3):
         attrs.insert(g.r.randrange(len(attrs) + 1), (g.pick(["UNKNOWN-ATTR", "FOO", "Z-9"]), g.pick(['"q,=x"', "42", "YES"])))
+    if g is not None and g.style.get("unknown_attrs") and g.chance(0.25):
+        # an attribute some OTHER tag defines is just as unknown here, whatever its value looks like
+        own = set(k for k, _ in attrs)
+        cand = [n for n in FOREIGN_ATTR_NAMES if n not in own and n not in g.style.get("own_names", ())]
+        if cand and g.style.get("own_names") is not None:
+            attrs.insert(g.r.randrange(len(attrs) + 1), (g.pick(cand), g.pick(["VARIABLE", '"25"', "-1", "0xFF", "NONE", "x", '"a,b"', "1.5", "nan"])))
     out = []
     for k, v in attrs:
         if g is not None and g.style.get("pad") and g.chance(0.3):
-            ws = ["", " ", "\t", "  "]
+            ws = ["", " ", "\t", "  ", "\u00a0", "\u2003", "\u3000\t", "\x0b", "\x0c"]
             out.append("%s%s%s=%s%s%s" % (g.pick(ws), k, g.pick(ws), g.pick(ws), v, g.pick(ws)))
         else:
             out.append("%s=%s" % (k, v))
@@ -377,7 +410,7 @@ def daterange_line(d, g):
         attrs.append((name, q(v) if kind == "s" else ("0x" + v.hex().upper() if kind == "h" else v)))
     if d["eon"]:
         attrs.append(("END-ON-NEXT", "YES"))
-    return "#EXT-X-DATERANGE:" + render_attrs(attrs, g)
+    return "#EXT-X-DATERANGE:" + attrs_of("daterange", attrs, g)
 
 
 def spec_daterange(d):
@@ -432,7 +465,7 @@ def map_line(m, g):
     attrs = [("URI", q(m["uri"]))]
     if m["range"] is not None:
         attrs.append(("BYTERANGE", q("%d@%d" % m["range"] if m["range"][1] is not None else "%d" % m["range"][0])))
-    return "#EXT-X-MAP:" + render_attrs(attrs, g)
+    return "#EXT-X-MAP:" + attrs_of("map", attrs, g)
 
 
 def render_media(a, g=None):
@@ -461,7 +494,7 @@ def render_media(a, g=None):
             attrs.append(("PRECISE", "YES"))
         elif g is not None and g.chance(0.3):
             attrs.append(("PRECISE", "NO"))
-        put("start", "#EXT-X-START:" + render_attrs(attrs, g))
+        put("start", "#EXT-X-START:" + attrs_of("start", attrs, g))
     if a["version_tag"] is not None:
         put("version_tag", "#EXT-X-VERSION:%d" % a["version_tag"])
     if a["endlist"] and "endlist" in late:
@@ -500,13 +533,13 @@ def style_lines(lines, g, protect_pairs=True):
     for i, l in enumerate(lines):
         after_streaminf = protect_pairs and i > 0 and lines[i - 1].startswith("#EXT-X-STREAM-INF:")
         if g.style.get("blank") and not after_streaminf and i > 0 and g.chance(0.15):
-            out.append(g.pick(["", "   ", "# a comment", "#comment, with = and \"quotes\"", "\t"]))
+            out.append(g.pick(["", "   ", "# a comment", "#comment, with = and \"quotes\"", "\t", "\u00a0", "\u2003\u3000", "\x0b"]))
         elif g.style.get("blank") and after_streaminf and g.chance(0.15):
             # between EXT-X-STREAM-INF and its URI only blank lines are transparent (a comment would be the URI)
             for _ in range(g.pick([1, 1, 2])):
                 out.append(g.pick(["", "   ", "\t"]))
         if g.style.get("linepad") and i > 0 and g.chance(0.2):
-            l = g.pick(["", " ", "\t"]) + l + g.pick(["", " ", "  \t"])
+            l = g.pick(["", " ", "\t", "\u00a0", "\u2003 ", "\x0b", "\u3000"]) + l + g.pick(["", " ", "  \t", "\u00a0", "\x0b", "\x0c ", "\u2003", "\u0085"])
         out.append(l)
     text = eol.join(out)
     if not g.style.get("no_final_eol"):
@@ -612,7 +645,7 @@ def xmedia_line(m, g):
         attrs.append(("CHARACTERISTICS", q(m["chars"])))
     if m["channels"] is not None:
         attrs.append(("CHANNELS", q("%d%s" % (m["channels"][0], "/JOC" if m["channels"][1] else ""))))
-    return "#EXT-X-MEDIA:" + render_attrs(attrs, g)
+    return "#EXT-X-MEDIA:" + attrs_of("media", attrs, g)
 
 
 def spec_xmedia(m):
@@ -625,7 +658,8 @@ def spec_xmedia(m):
 
 def gen_stream_data(g, video=None):
     return {"bw": g.u64(), "avg": g.u64() if g.chance(0.4) else None,
-            "codecs": g.pick([["avc1.4d401e", "mp4a.40.2"], ["mp4a.40.5"], ["hvc1.2.4.L123.B0", "ec-3", "x y"]]) if g.chance(0.5) else None,
+            "codecs": g.pick([["avc1.4d401e", "mp4a.40.2"], ["mp4a.40.5"], ["hvc1.2.4.L123.B0", "ec-3", "x y"], ["avc1.4d401e", " mp4a.40.2"],
+                              ["avc1.4d401e", "  mp4a.40.2", "ec-3 "], [" a", "b  ", "  c"]]) if g.chance(0.5) else None,
             "res": (g.pick([0, 416, 1280, 1920, U64]), g.pick([0, 234, 720, 1080, U64])) if g.chance(0.5) else None,
             "hdcp": g.pick(["TYPE-0", "NONE"]) if g.chance(0.3) else None, "video": video}
 
@@ -695,7 +729,7 @@ def gen_master(g, consistent=True):
 
 def variant_lines(v, g):
     if v["kind"] == "iframe":
-        return ["#EXT-X-I-FRAME-STREAM-INF:" + render_attrs([("URI", q(v["uri"]))] + sd_attrs(v["sd"]), g)]
+        return ["#EXT-X-I-FRAME-STREAM-INF:" + attrs_of("iframe", [("URI", q(v["uri"]))] + sd_attrs(v["sd"]), g)]
     attrs = sd_attrs(v["sd"])
     if v["fr"] is not None:
         attrs.append(("FRAME-RATE", v["fr"]))
@@ -705,14 +739,14 @@ def variant_lines(v, g):
         attrs.append(("SUBTITLES", q(v["subs"])))
     if v["cc"] is not None:
         attrs.append(("CLOSED-CAPTIONS", "NONE" if v["cc"] == "NONE" else q(v["cc"][1])))
-    return ["#EXT-X-STREAM-INF:" + render_attrs(attrs, g), v["uri"]]
+    return ["#EXT-X-STREAM-INF:" + attrs_of("streaminf", attrs, g), v["uri"]]
 
 
 def sdata_line(d, g):
     attrs = [("DATA-ID", q(d["id"])), ("VALUE" if d["data"][0] == "value" else "URI", q(d["data"][1]))]
     if d["lang"] is not None:
         attrs.append(("LANGUAGE", q(d["lang"])))
-    return "#EXT-X-SESSION-DATA:" + render_attrs(attrs, g)
+    return "#EXT-X-SESSION-DATA:" + attrs_of("sdata", attrs, g)
 
 
 def render_master(a, g=None):
@@ -728,7 +762,7 @@ def render_master(a, g=None):
         misc.append("#EXT-X-INDEPENDENT-SEGMENTS")
     if a["start"] is not None:
         attrs = [("TIME-OFFSET", a["start"][0])] + ([("PRECISE", "YES")] if a["start"][1] else [])
-        misc.append("#EXT-X-START:" + render_attrs(attrs, g))
+        misc.append("#EXT-X-START:" + attrs_of("start", attrs, g))
     if a["version_tag"] is not None:
         misc.append("#EXT-X-VERSION:%d" % a["version_tag"])
     # blocks: each is a list of lines that stays together; order within a kind is kept
